@@ -200,7 +200,7 @@ func init() {
 					if loop, _ := sp.enclosingLoop(cl).(*ast.ForStmt); loop != nil {
 						if li := sp.loopShape(loop); li != nil && li.v == iv && li.ascending && !li.inclusive && li.from == "0" {
 							if nf := sp.isCall(sp.deref(li.boundExpr), "go/types.Struct.NumFields"); nf != nil && sp.varOf(recvOf(nf)) == st {
-								okLoop = len(sp.loopExits(loop)) == 0
+								okLoop = sp.loopComplete2(loop, loop.Cond) // the only exits are rejections
 							}
 						}
 					}
